@@ -34,14 +34,16 @@ SYMKEYS = ('androguard.core.apk',)
 # ------------------------------------------------------------------ manifest models (enumerated through the executor)
 A_NS = 'http://schemas.android.com/apk/res/android'
 PKG = 'org.ex.app'
-NAMES = ['.ui.Main', 'Main', 'org.ex.app.Main', 'org.other.X']
+NAMES = ['.ui.Main', 'Main', 'org.ex.app.Main', 'org.other.X', 'a.b.C$D', '.Main$Inner']       # the last two: thorough tier only
 SECOND = ['none', 'alias+launcher', 'activity+launcher', 'alias']
 SECOND_NAMES = ['.Alias', 'Alias', 'org.ex.app.zz.Z']
 ENABLED = [None, True, False]
 PERMS = [[], [['android.permission.INTERNET', None]], [['android.permission.INTERNET', None], ['android.permission.INTERNET', 22]],
-         [['android.permission.CAMERA', 28], ['a.b.CUSTOM', None]]]
+         [['android.permission.CAMERA', 28], ['a.b.CUSTOM', None]],
+         [['x.y.Z', 1], ['x.y.Z', None], ['android.permission.CAMERA', None]]]          # the last one: thorough tier only
 SDKS = [(None, None, None), (21, 30, None), (7, None, 19), (None, 33, None), (None, 0x7FFFFFFF, None)]
-SLOTS = [len(NAMES), len(SECOND), len(SECOND_NAMES), len(ENABLED), len(NAMES), len(PERMS), len(SDKS)]
+SLOTS_T = [len(NAMES), len(SECOND), len(SECOND_NAMES), len(ENABLED), len(NAMES), len(PERMS), len(SDKS)]
+SLOTS = [4, len(SECOND), len(SECOND_NAMES), len(ENABLED), 4, 4, len(SDKS)]
 
 
 def complete(name):
@@ -217,7 +219,7 @@ def job(jc, spec):
         label = 'manifest models'
 
         def gom():
-            ch = list(first) + [engine().choose(n) for n in SLOTS[len(first):]]
+            ch = list(first) + [engine().choose(n) for n in (SLOTS_T if len(spec) > 2 and spec[2] else SLOTS)[len(first):]]
             M = manifest_model(ch)
             return ch, manifest_diff(manifest_observed(apkmod, manifest_bytes(M)), manifest_expected(M))
         for pc, (k, r) in eng.explore(gom):
@@ -325,7 +327,8 @@ def run(ctx):
     ctx.diff_unhooked(sys.modules[__name__], HISTORY)
     jobs = [('format', nv, npk) for nv in range(0, 7) for npk in (0, 1, 4)]
     jobs += [('format2', nv, npk) for nv in (1, 2, 3) for npk in (1, 2)]
-    jobs += [('manifest', (a, b)) for a in range(SLOTS[0]) for b in range(SLOTS[1])]
+    slots = SLOTS_T if ctx.thorough else SLOTS
+    jobs += [('manifest', (a, b), ctx.thorough) for a in range(slots[0]) for b in range(slots[1])]
     jobs += [('sdk', t, m) for t in (None, '', 1, 2, 3) for m in (None, '', 1, 2)]
     ctx.expect_reach(['format', 'sdk', 'manifest'])
     ctx.pmap(job, jobs)
